@@ -480,4 +480,35 @@ def apply(raw, known=None):
                         rep["skipped"].append((owner, "awaited through a combinator in " + path))
         if not did:
             break
+    # a helper whose every call site was inlined is now represented inside its callers: drop its own body so that
+    # crate-wide "who may call X" rules judge the code once, where it runs
+    rep["removed"] = []
+    for owner in list(cand) + list(acand):
+        fam = [q for q in bodies if q == owner or q.startswith(owner + "::{")]
+        still = False
+        for path, body in bodies.items():
+            if path in fam:
+                continue
+            for blk in body["blocks"]:
+                t = blk["term"]
+                if t["k"] == "call":
+                    cp = t["callee"]["path"]
+                    if cp == owner and not t.get("inlined_future"):
+                        still = True
+                    if cp in fam and cp != owner and not path.startswith(owner):
+                        still = True
+                    for a in t["args"]:
+                        c = a.get("const")
+                        if c and "fn" in c and c["fn"].get("path") == owner:
+                            still = True
+                for st_ in blk["stmts"]:
+                    if st_["k"] == "assign":
+                        txt = json.dumps(st_["rv"])
+                        if '"fn"' in txt and owner in txt:
+                            still = True
+        if not still and any(x[0] in (owner, acand.get(owner)) for x in rep["inlined"]):
+            for q in fam:
+                # closure bodies stay reachable through their alias under the caller
+                bodies.pop(q, None)
+            rep["removed"].append(owner)
     return rep
